@@ -1048,7 +1048,14 @@ def compressed(chk: Check, G: Geo):
             chk.formula("K-FORMULA", "compressed:slice-start", rets[-1], t[2][1], spec_expr("OFF % cs", env), domain=dom)
             chk.formula("K-FORMULA", "compressed:slice-end", rets[-1], t[2][2], spec_expr("OFF % cs + LEN", env), domain=dom)
             dkey = f"{qk}._decompress"
-            chk.decide(t[1][0] == "call" and t[1][1] == dkey, "K-PROV", "compressed:inflate-call", rets[-1], "data goes through _decompress", found=S.show(t[1])[:100])
+            # (a remembered earlier result - a benign memo, see rulelib._memo_store - may be an alternative: what is sliced must be,
+            # where it is computed, the result of _decompress)
+            alts = [a_ for a_ in S.alternatives(t[1])]
+            computed = [a_ for a_ in alts if a_[0] == "call" and a_[1] == dkey]
+            remembered = [a_ for a_ in alts if a_ not in computed and S.contains(a_, lambda y: isinstance(y, tuple) and y and y[0] in ("attr", "self"))
+                          and not S.contains(a_, lambda y: isinstance(y, tuple) and y and y[0] == "call")]
+            chk.decide(bool(computed) and len(computed) + len(remembered) == len(alts), "K-PROV", "compressed:inflate-call", rets[-1],
+                       "data goes through _decompress", found=S.show(t[1])[:100])
     _typestate(chk, ctx, "compressed")
     # _decompress: zlib branch is a bounded raw-deflate inflate
     dctx = chk.func(REL, "QCow2._decompress")
